@@ -114,6 +114,8 @@ pub struct TaskM {
     pub span: Option<SpanM>,
     pub node: u32,
     pub done: bool,
+    /// spans the scripted future holds across its suspension points (released when it is dropped)
+    pub held: Vec<SpanM>,
 }
 
 #[derive(Clone, Debug)]
@@ -238,6 +240,7 @@ pub struct Model {
     pub final_polls: Vec<OpRef>,
     /// #[trace] twin calls: (op, token of the local parent the traced call runs under)
     pub twin_calls: Vec<(OpRef, Vec<Item>)>,
+    pub cur_task: Option<Slot>,
 }
 
 type R = Result<(), String>;
@@ -275,6 +278,7 @@ impl Model {
             poll_nodes: vec![],
             final_polls: vec![],
             twin_calls: vec![],
+            cur_task: None,
         }
     }
 
@@ -653,6 +657,9 @@ impl Model {
                         match std::mem::replace(&mut self.slots[s], SlotM::Gone) {
                             SlotM::Span(sp) => self.finish_span(sp, op),
                             SlotM::Task(tk) => {
+                                for h in tk.held {
+                                    self.finish_span(h, op);
+                                }
                                 if let Some(sp) = tk.span {
                                     self.finish_span(sp, op)
                                 }
@@ -1134,6 +1141,19 @@ impl Model {
                 self.pop_handle(t, op, None)?;
                 self.pop_handle(t, op, None)?;
             }
+            Op::HoldChild => {
+                let task = match self.cur_task {
+                    Some(t) if is_inner => t,
+                    _ => return err("HoldChild only inside a poll body"),
+                };
+                let sp = match self.local_token(t) {
+                    Some(items) => self.new_span(op, t, items, None, 0),
+                    None => self.noop_span(op, t, 0),
+                };
+                if let SlotM::Task(tk) = self.slot(task) {
+                    tk.held.push(sp);
+                }
+            }
             Op::LocalBurst { n } => {
                 let str_seed = self.str_seed;
                 let mut hit = false;
@@ -1236,6 +1256,7 @@ impl Model {
                     span: sp,
                     node: op,
                     done: false,
+                    held: vec![],
                 });
             }
             Op::Poll { task, kind, ready } => {
@@ -1249,7 +1270,7 @@ impl Model {
                 let ok_kind = match tk.wrap {
                     Wrap::InSpan | Wrap::EnterOnPoll | Wrap::InSpanEnterOnPoll => *kind == PollKind::Poll,
                     Wrap::Stream => matches!(kind, PollKind::PollNext | PollKind::PollNextItem),
-                    Wrap::Sink => matches!(kind, PollKind::PollReady | PollKind::StartSend | PollKind::PollFlush | PollKind::PollClose),
+                    Wrap::Sink => matches!(kind, PollKind::PollReady | PollKind::StartSend | PollKind::PollFlush | PollKind::PollClose | PollKind::PollCloseErr),
                 };
                 if !ok_kind {
                     return err("poll kind does not fit the task");
@@ -1299,12 +1320,15 @@ impl Model {
                     self.poll_nodes.push(tk.node);
                     eop = true;
                 }
-                self.run_inner(idx, t, inner)?;
+                self.cur_task = Some(*task);
+                let r = self.run_inner(idx, t, inner);
+                self.cur_task = None;
+                r?;
                 if eop {
                     self.pop_handle(t, op, None)?;
                 }
                 let completes = match kind {
-                    PollKind::Poll | PollKind::PollNext | PollKind::PollNextItem | PollKind::PollClose => *ready,
+                    PollKind::Poll | PollKind::PollNext | PollKind::PollNextItem | PollKind::PollClose | PollKind::PollCloseErr => *ready,
                     _ => false,
                 };
                 if guard_pushed {
@@ -1333,6 +1357,10 @@ impl Model {
                         return err("no task in slot");
                     }
                 };
+                // the wrapped future goes first (and with it the spans it holds), then the span
+                for h in tk.held {
+                    self.finish_span(h, op);
+                }
                 if let Some(sp) = tk.span {
                     self.finish_span(sp, op);
                 }
